@@ -74,6 +74,26 @@ async fn run_authz(ops: &[String], model: &mut Option<ModelProc>) -> Result<Case
             for (key, what, expected) in rf.judge(op, &got) {
                 out.failures.push((key, what, ops[..=i].to_vec(), expected, got.clone()));
             }
+            // delegate ⊆ delegator, on real decisions: whatever a Delegation lets its holder do, the Principal that made
+            // it is not refused when it asks the very same question (same permission, resource and caller context)
+            if head == "auth" && (got.starts_with("ok allow") || got.starts_with("ok require_approval")) {
+                let t: Vec<&str> = op.split(' ').collect();
+                if let Some(n) = got.split(' ').find_map(|x| x.strip_prefix("used=kip:delegation:")).and_then(|n| n.parse::<usize>().ok())
+                    && let Some(dor) = rf.delegator_to_reask(t[1], n)
+                {
+                    let mut q = t.clone();
+                    q[2] = dor.as_str();
+                    q[6] = "-";
+                    let asked = q.join(" ");
+                    let theirs = authz::apply(&nexus, &asked).await;
+                    out.hits.push("oracle:delegator-reasked".into());
+                    if theirs.starts_with("ok deny") {
+                        let mut ctx = ops[..=i].to_vec();
+                        ctx.push(asked);
+                        out.failures.push(("authz:delegate-allowed-where-its-delegator-is-denied".into(), format!("{} lets {} do what {} itself is refused", format!("kip:delegation:{n}"), t[2], dor), ctx, "the delegator is not refused the same request".into(), format!("delegate: {got} | delegator: {theirs}")));
+                    }
+                }
+            }
         }
         if let Some(m) = model.as_mut() {
             let ans = m.ask(op);
